@@ -127,6 +127,214 @@ def _neg_product(ch):
 
 
 def _sum_facts(model, table):
+    from .. import ModelViolation
+    try:
+        return _sum_facts_structural(model, table)
+    except ModelViolation:
+        raise
+    except AnalysisError as e:
+        structural = e
+    # (ModelViolation passes through: a recognised wrong shape is a verdict)
+    try:
+        return _sum_facts_interpreted(model, table)
+    except AnalysisError as e2:
+        raise AnalysisError(f"{structural}; and by interpretation: {e2}")
+
+
+def _sum_facts_interpreted(model, table):
+    """the simplifying map_sum interpreted (pv/absint.py) on sums of atoms,
+    negated products and negative numbers, with rec() answering '<what@prec>':
+    the facts of the printing rule are read off two probes and must then
+    reproduce every other interpreted sum."""
+    import re
+    from ..absint import (Interp, Obj, Opaque, Raised, StepBound, module_env,
+                          default_isinstance)
+    mapper = table.mapper
+    mem = model.lookup(mapper, "map_sum")
+    if mem is None or mem.kind != "func":
+        raise AnalysisError("C printer: map_sum not found")
+    mod = mem.owner.module
+    glob = module_env(mod.tree, {"p": Opaque("p"), "primitives": Opaque("p")})
+
+    def prod(*ch):
+        return Obj("Product", {"children": tuple(ch)})
+
+    class ProductCls:
+        what = "p.Product"
+
+        def __call__(self, ch):
+            return prod(*ch)
+
+    def label(x):
+        if isinstance(x, Opaque):
+            return x.what
+        if isinstance(x, Obj) and x.cls == "Product":
+            return "P(" + ",".join(label(c) for c in x.fields["children"]) + ")"
+        return repr(x)
+
+    def to_tree(x):
+        if isinstance(x, Opaque):
+            return ("Var", x.what)
+        if isinstance(x, Obj):
+            return ("Product", tuple(to_tree(c) for c in x.fields["children"]))
+        return ("Const", x)
+
+    def tree_label(t):
+        if t[0] == "Var":
+            return t[1]
+        if t[0] == "Product":
+            return "P(" + ",".join(tree_label(c) for c in t[1]) + ")"
+        return repr(t[1])
+
+    def resolve(cls, nm):
+        if cls == "mapper":
+            m_ = model.lookup(mapper, nm)
+            if m_ is not None and m_.kind == "func":
+                return ("func", m_.node)
+        return None
+
+    def isinst(it, n_, a, k):
+        cs = a[1] if isinstance(a[1], tuple) else (a[1],)
+        names = [getattr(c, "what", "").replace(".", " ").split(" ")[-1]
+                 for c in cs]
+        if all(nm in ("Product", "Sum", "Expression", "Variable") for nm in names):
+            if isinstance(a[0], Obj):
+                return a[0].cls in names or "Expression" in names
+            if isinstance(a[0], Opaque):
+                return bool({"Expression", "Variable"} & set(names))
+            return False
+        r = default_isinstance(a[0], a[1])
+        if r is None:
+            raise AnalysisError(f"isinstance(..., {a[1]!r})")
+        return r
+
+    def is_zero(it, n_, a, k):
+        return isinstance(a[0], (int, float)) and not isinstance(a[0], bool) \
+            and a[0] == 0
+    own = []
+
+    def run(children, reverse):
+        me = Obj("mapper", {"reverse": reverse})
+        node = Obj("Sum", {"children": tuple(children)})
+
+        def rec(it, n_, a, k):
+            pr = a[1] if len(a) > 1 else 0
+            if not isinstance(pr, int):
+                raise AnalysisError("rec() precedence is not a constant")
+            return f"<{label(a[0])}@{pr}>"
+
+        def pin(it, n_, a, k):
+            if not (len(a) == 3 and a[1] == "ENCL" and isinstance(a[2], int)):
+                raise AnalysisError("simplifying map_sum: result is not "
+                                    "parenthesize_if_needed(..., enclosing_prec, P)")
+            own.append(a[2])
+            return a[0]
+
+        def attrs(it, n_, base, attr):
+            if isinstance(base, Opaque) and base.what == "p" and \
+                    attr == "Product":
+                return ProductCls()
+            if isinstance(base, Opaque) and base.what == "p" and \
+                    attr == "is_zero":
+                return lambda v: is_zero(None, None, [v], {})
+            return Opaque(ast.unparse(n_))
+        it = Interp(calls={"self.rec": rec, "self.parenthesize_if_needed": pin,
+                           "isinstance": isinst, "is_zero": is_zero,
+                           "p.is_zero": is_zero,
+                           "Product": lambda it_, n_, a, k: prod(*a[0]),
+                           "p.Product": lambda it_, n_, a, k: prod(*a[0]),
+                           "<opaque-binop>": lambda it_, n_, op, a, b:
+                           Opaque("a tree")},
+                    attrs=attrs, resolve=resolve, globals_=glob, max_steps=40000)
+        try:
+            out = it.call_function(mem.node, [me, node, "ENCL"], dict(glob))
+        except (Raised, StepBound) as e:
+            raise AnalysisError(f"simplifying map_sum on {label(node)}: "
+                                f"{type(e).__name__}")
+        if not isinstance(out, str):
+            raise AnalysisError("simplifying map_sum: result is not text")
+        return out
+    A, B, C = Opaque("a"), Opaque("b"), Opaque("c")
+    tok = re.compile(r"<([^<>@]*)@(-?\d+)>")
+    # probe 1: two atoms
+    o1 = run([A, B], False)
+    t1 = list(tok.finditer(o1))
+    if len(t1) != 2 or o1[:t1[0].start()] or o1[t1[1].end():] or \
+            t1[0].group(2) != t1[1].group(2):
+        raise AnalysisError(f"simplifying map_sum: a + b is written '{o1}'")
+    facts = {"where": mod.loc(mem.node),
+             "handler": f"{mem.owner.name}.map_sum",
+             "pos_sep": o1[t1[0].end():t1[1].start()],
+             "pos_prec": int(t1[0].group(2))}
+    # probe 2: an atom and a negated atom
+    o2 = run([A, prod(-1, B)], False)
+    t2 = {m_.group(1): m_ for m_ in tok.finditer(o2)}
+    if set(t2) != {"a", "b"} or not o2.startswith(t2["a"].group(0)):
+        raise AnalysisError(f"simplifying map_sum: a + (-1)*b is written '{o2}'")
+    facts["neg_prec"] = int(t2["b"].group(2))
+    facts["neg_fmt"] = o2[t2["a"].end():].replace(t2["b"].group(0), "%s")
+    if facts["neg_fmt"].count("%s") != 1:
+        raise AnalysisError(f"simplifying map_sum: a + (-1)*b is written '{o2}'")
+    # probe 3: a negative number
+    o3 = run([A, -5], False)
+    t3 = {m_.group(1): m_ for m_ in tok.finditer(o3)}
+    if "5" in t3 and "-5" not in t3:
+        facts["neg_const"] = True
+    if len(set(own)) != 1:
+        raise AnalysisError("simplifying map_sum: own precedence varies")
+    facts["own_prec"] = own[0]
+
+    # the model with these facts must reproduce the interpretation
+    def model_out(children, reverse):
+        pos, negs = [], []
+        for ch in children:
+            t = to_tree(ch)
+            rest = _neg_product(t)
+            if rest is None and facts.get("neg_const") and t[0] == "Const" \
+                    and type(t[1]) in (int, float) and t[1] < 0:
+                rest = ("Const", -t[1])
+            if rest is not None:
+                negs.append(f"<{tree_label(rest)}@{facts['neg_prec']}>")
+            else:
+                pos.append(f"<{tree_label(t)}@{facts['pos_prec']}>")
+        pos.sort(reverse=reverse)
+        negs.sort(reverse=reverse)
+        return facts["pos_sep"].join(pos) + "".join(
+            facts["neg_fmt"] % x for x in negs)
+    cases = [
+        [A, B, C], [prod(-1, A), B], [prod(-1, A, B), C], [A, prod(B, -1)],
+        [prod(-1, A), prod(-1, B)], [A, -5, 2.5], [prod(-1, -1, A), B],
+        [A, prod(-1, prod(-1, B))], [prod(A, B), prod(-1, C)], [A], [prod(-1, A)],
+        [A, prod(1, B)], [A, prod(-1.0, B)], [7, A],
+    ]
+    n_cases = 0
+    for ch in cases:
+        for reverse in (True, False):
+            n_cases += 1
+            got, want = run(ch, reverse), model_out(ch, reverse)
+            if got != want:
+                if sorted(tok.findall(got)) != sorted(tok.findall(want)):
+                    shown = " + ".join(label(c) for c in ch)
+                    if ch is cases[6] and ("a", str(facts["neg_prec"])) in \
+                            tok.findall(got):
+                        from .. import ModelViolation
+                        raise ModelViolation(
+                            "P/simplifying/map_sum/one-sign-removed",
+                            mod.loc(mem.node),
+                            "the subtraction rewrite removes every factor -1 of "
+                            "a product and writes one minus for the term: "
+                            f"(-1)*(-1)*a + b is printed as '{got}'")
+                    raise AnalysisError(
+                        f"simplifying map_sum: {shown} is written '{got}'; the "
+                        f"subtraction rule read off the probes gives '{want}'")
+                raise AnalysisError("simplifying map_sum: operand order differs "
+                                    f"from sorted order ('{got}' / '{want}')")
+    facts["neg_helper_ok"] = True
+    facts["interpreted_cases"] = n_cases
+    return facts
+
+
+def _sum_facts_structural(model, table):
     mapper = table.mapper
     mem = model.lookup(mapper, "map_sum")
     if mem is None or mem.kind != "func":
